@@ -110,12 +110,12 @@ def handle (st : State) (req : List String) : State × String :=
       | some ks, some c => (st, showPy showNames (remove st.names c (.many ks)))
       | _, _ => (st, "bad-request")
     | none => (st, "bad-request")
-  | ["ln2", P, n] =>
-    match P.toNat?, n.toNat? with
-    | some P, some n => (st, match ln2Encl P n with
+  | ["ln2", P, n, m] =>
+    match P.toNat?, n.toNat?, m.toNat? with
+    | some P, some n, some m => (st, match ln2Encl P n m with
         | some (a, b) => s!"ok {encRat a} {encRat b}"
         | none => "none")
-    | _, _ => (st, "bad-request")
+    | _, _, _ => (st, "bad-request")
   | ["expneg", P, n, k, xlo, xhi] =>
     match P.toNat?, n.toNat?, k.toNat?, decRat xlo, decRat xhi with
     | some P, some n, some k, some a, some b =>
@@ -138,7 +138,9 @@ def handle (st : State) (req : List String) : State × String :=
         let cfg : EvalCfg := { P := P, n := n, extra := extra, ln2 := (a, b) }
         let idx := decayIndices ds (v.map (·.1))
         let idx := if cmd == "cum" then idx.filter (fun i => get2 ds.rate i 0 != 0) else idx
-        let f := if cmd == "cum" then cumEncl ds cfg v t else solEncl ds cfg v t
+        let ks := (idx.flatMap (fun i => (getRow ds.cx i).map (·.col))).eraseDups
+        let tbl := factorTable ds cfg t ks
+        let f := if cmd == "cum" then cumEnclT ds tbl v else solEnclT ds tbl v
         (st, "ok " ++ " ".intercalate (idx.map (fun i => let r := f i; s!"{i}:{encRat r.1}:{encRat r.2}")))
       | _, _, _, _, _, _, _, _ => (st, "bad-request")
     else (st, "bad-request")
